@@ -1624,6 +1624,7 @@ impl Reference
 				}
 				ReferenceStep::Autodeslice { offset: 0 } =>
 				{
+					is_immediate_parameter = false;
 					if indices.is_empty()
 					{
 						addr = unsafe {
